@@ -29,11 +29,13 @@ Ltac dcrush :=
   rewrite ?N.eqb_refl; simpl;
   repeat match goal with |- context [?a =? ?b] => destruct (a =? b) eqn:?; simpl end; auto.
 
-(* after the repairs 7dd46dd/8a03683/4561dbf the decision tree equals the specification for EVERY well-formed descriptor
-   and every existing property without stale fields, kind conversions included *)
-Lemma define_refines_spec : forall ext ex d,
+(* after the repairs 7dd46dd/8a03683/4561dbf the decision tree equals the specification for EVERY well-formed
+   descriptor and every existing property without stale fields, kind conversions included, and it never leaves stale
+   fields behind *)
+Lemma define_spec_clean : forall ext ex d,
   desc_wf d = true -> oclean ex = true ->
-  option_map absE (goja_define ext ex d) = spec_define ext (option_map absE ex) d.
+  option_map absE (goja_define ext ex d) = spec_define ext (option_map absE ex) d /\
+  oclean (goja_define ext ex d) = true.
 Proof.
   intros ext ex [dv dw dg ds de dc] Hwf Hcl.
   destruct ex as [[v|[pv pw pe pc pa pg ps]]|]; simpl in *.
@@ -60,28 +62,11 @@ Proof.
     destruct de as [[|]|], dc as [[|]|]; dcrush.
 Qed.
 
-(* ... and, since 4561dbf, it never leaves stale fields behind, kind conversions included *)
+Lemma define_refines_spec : forall ext ex d,
+  desc_wf d = true -> oclean ex = true ->
+  option_map absE (goja_define ext ex d) = spec_define ext (option_map absE ex) d.
+Proof. intros. apply define_spec_clean; auto. Qed.
+
 Lemma define_clean : forall ext ex d,
   desc_wf d = true -> oclean ex = true -> oclean (goja_define ext ex d) = true.
-Proof.
-  intros ext ex [dv dw dg ds de dc] Hwf Hcl.
-  destruct ex as [[v|[pv pw pe pc pa pg ps]]|]; simpl in *.
-  - destruct dg as [[g|]|], ds as [[s|]|]; simpl in *;
-    destruct dv as [x|], dw as [[|]|]; simpl in *; try discriminate;
-    destruct de as [[|]|], dc as [[|]|]; dcrush.
-  - destruct pa; simpl in *.
-    + apply andb_true_iff in Hcl; destruct Hcl as [Hw Hv].
-      simpl in Hw, Hv. apply negb_true_iff in Hw; apply N.eqb_eq in Hv; subst.
-      destruct dv as [x|], dw as [[|]|]; simpl in *;
-      destruct dg as [[g|]|], ds as [[s|]|]; simpl in *; try discriminate;
-      destruct pc, pe, de as [[|]|], dc as [[|]|], pg as [pg|], ps as [ps|]; dcrush.
-    + apply andb_true_iff in Hcl; destruct Hcl as [Hg Hs].
-      simpl in Hg, Hs. destruct pg; simpl in Hg; try discriminate. destruct ps; simpl in Hs; try discriminate.
-      destruct dg as [[g|]|], ds as [[s|]|]; simpl in *;
-      destruct dv as [x|], dw as [[|]|]; simpl in *; try discriminate;
-      destruct pc, pw, pe, de as [[|]|], dc as [[|]|]; dcrush.
-  - destruct ext; [|dcrush].
-    destruct dg as [[g|]|], ds as [[s|]|]; simpl in *;
-    destruct dv as [x|], dw as [[|]|]; simpl in *; try discriminate;
-    destruct de as [[|]|], dc as [[|]|]; dcrush.
-Qed.
+Proof. intros. apply define_spec_clean; auto. Qed.
